@@ -299,3 +299,72 @@ func VerifC14IDs() {
 	}
 	verifapi.Reach("c14.ids")
 }
+
+// VerifLocalSvc is registered on a Local's real Server.
+type VerifLocalSvc struct {
+	self  Service
+	ctxOK bool
+	seen  []int64
+}
+
+func (s *VerifLocalSvc) Echo(ctx context.Context, x int64) (int64, error) {
+	if svc, err := CtxService(ctx); err != nil || svc != s.self {
+		s.ctxOK = false
+	}
+	s.seen = append(s.seen, x)
+	return x, nil
+}
+
+func (s *VerifLocalSvc) Fail(ctx context.Context, x int64) (int64, error) {
+	return 0, errors.New("refused")
+}
+
+// VerifC14Local: the in-process Service (jsonrpc2.Local: real Client.Request,
+// real Server.Handle over the reflect model, Response.UnmarshalResult): every
+// call returns the reply to its own request, a handler error comes back as
+// the call's error, the service in the handler's context is the Local itself,
+// and concurrent callers never see each other's replies.
+func VerifC14Local() {
+	svc := &VerifLocalSvc{ctxOK: true}
+	loc := &Local{}
+	svc.self = loc
+	if err := loc.Server.Register("", svc); err != nil {
+		verifapi.Unreachable("c14.local-register")
+	}
+	n := verifapi.Param("callers", 2)
+	type res struct {
+		i    int
+		got  int64
+		err  error
+		fail bool
+	}
+	done := make(chan res, n)
+	toks := make([]int64, n)
+	for i := 0; i < n; i++ {
+		toks[i] = verifapi.Int64(fmt.Sprint("token", i))
+		fail := verifapi.Bool(fmt.Sprint("fail", i))
+		go func(i int, fail bool) {
+			var got int64
+			method := "echo"
+			if fail {
+				method = "fail"
+			}
+			err := loc.Call(context.Background(), &got, method, toks[i])
+			done <- res{i, got, err, fail}
+		}(i, fail)
+	}
+	handled := 0
+	for k := 0; k < n; k++ {
+		r := <-done
+		if r.fail {
+			verifapi.Assert(r.err != nil, "c14.local-handler-error-is-returned")
+			continue
+		}
+		handled++
+		verifapi.Assert(r.err == nil, "c14.call-succeeds")
+		verifapi.Assert(r.got == toks[r.i], "c14.call-returns-own-reply")
+	}
+	verifapi.Reach("c14.local")
+	verifapi.Assert(svc.ctxOK, "c14.handler-context-is-arrival-connection")
+	verifapi.Assert(len(svc.seen) == handled, "c14.request-handled-exactly-once")
+}
